@@ -11,7 +11,7 @@ use refmodel::tx::Kind;
 use refmodel::txjson::{self, Spell};
 
 const P: &str = "C17";
-struct Case { class: String, cmd: Cmd, shim: Option<Mode> }
+pub struct Case { class: String, cmd: Cmd, shim: Option<Mode> }
 fn c(class: &str, cmd: Cmd) -> Case { Case { class: class.into(), cmd, shim: None } }
 
 pub fn cases(thorough: bool) -> Vec<Case> {
